@@ -25,6 +25,7 @@ import json
 import os
 import sys
 import threading
+from exec import Inconclusive, Unmodelled
 
 sys.path.insert(0, os.path.join(os.path.dirname(os.path.dirname(os.path.abspath(__file__))), 'kani'))
 import kanirun   # noqa: E402
@@ -187,8 +188,9 @@ def run(ctx):
         'unwind': {'n=2': 3, 'n=3': 4}, 'unwinding_assertions': 'on', 'kani_default_checks': 'on (panics, overflow, memory safety)',
         'assertion_reach_checks': 'off (--no-assertion-reach-checks, 40% faster); vacuity is guarded by the kani::cover! properties placed after the assertions',
         'permutations': 'n=2: swap; n=3: swap(0,1) and rotation (generate S3)',
-        'outside': 'n > %d; equal node names; ActorId::Remote candidates; the runtime protocol around the kernel (status replies, ready events, interleavings); '
-                   'the authentication filter that builds the candidate list ([ext], not built)' % nmax})
+        'server_slice': 'engine M: NodeServer::handle(ConnectionAuthenticated) with commit_authenticated and the real elect_sessions on 2 (thorough: also 3) sessions of one peer, '
+                        'both directions, nonces none / equal / different, some already authenticated',
+        'outside': 'n > %d; equal node names; ActorId::Remote candidates; the two nodes\' handshakes interleaving on a runtime (status replies, ready events)' % nmax})
     ctx.assumptions += [
         'Kani 0.68 / CBMC 6.11 translate the MIR of elect_sessions and the std Vec/iterator code it uses faithfully (bit-precise, sequential)',
         'hook wrapper /verif/hooks/cluster_node.rs only converts plain tuples to SessionElectionCandidate{ActorId::Local(pid), is_server, NonZeroU64::new(nonce)} and back',
@@ -236,6 +238,14 @@ def run(ctx):
             ctx.translator_validated += 1
     except Exception as e:   # noqa
         ctx.inconclusive.append('native replay crate unavailable: %s' % str(e)[-500:])
+    # engine M: what the node server does with the verdict (losing duplicates are really closed) - runs while Kani works
+    try:
+        import cluster
+        import C18_server
+        prog_c, _info = cluster.load()
+        C18_server.check(ctx, prog_c)
+    except (Inconclusive, Unmodelled) as e:
+        ctx.inconclusive.append('C18 server slice: %s: %s' % (type(e).__name__, str(e)[:300]))
     th.join()
     if 'exc' in box:
         raise box['exc']
@@ -315,6 +325,11 @@ def sample_scenarios():
 def replay_file(path):
     d = json.load(open(path))
     rp = d.get('replay') or {}
+    if rp.get('which') == 'server':
+        import C18_server_replay
+        r = C18_server_replay.replay(rp['rp'])
+        print(r['detail'])
+        return 1 if r['replayed'] else 0
     if rp.get('kind') not in ('perm', 'mirror'):
         print('unknown replay scenario')
         return 2
